@@ -120,7 +120,7 @@ func replicaChecks(res *common.Result, cfg Config, work string, s *apphist.Sim) 
 	if cfg.Prop == "C05" {
 		failedOmittedCheck(res, lines, s, run)
 	}
-	if want("C07") && s.EverRestarted {
+	if (want("C07") || cfg.Prop == "C01") && s.EverRestarted {
 		cont := filterLines(lines, func(k string) bool { return k == "restart" })
 		if b := run("c07", cont); b != nil {
 			// a restart adds a "restart" and a "dump" record on the primary: drop them for the comparison
@@ -129,7 +129,7 @@ func replicaChecks(res *common.Result, cfg Config, work string, s *apphist.Sim) 
 			for _, r := range s.Recs {
 				if r.Kind == "restart" {
 					skip = true
-					if r.Out != "ok" {
+					if r.Out != "ok" && want("C07") {
 						res.Violations = append(res.Violations, common.Violation{Property: "C07", Kind: "restart-info",
 							Detail: "restarted node reports " + r.Out, Ops: lines})
 					}
@@ -147,8 +147,14 @@ func replicaChecks(res *common.Result, cfg Config, work string, s *apphist.Sim) 
 			notCheck := func(r *apphist.Rec) bool { return !(r.Kind == "tx" && r.Mode == "c") }
 			if i, d := firstDivergence(consensusRecs(prim, notCheck), consensusRecs(b.Recs, notCheck), true); i >= 0 {
 				kind := "restart-divergence"
-				res.Violations = append(res.Violations, common.Violation{Property: "C07", Kind: kind,
-					Detail: "a restarted node and a node that kept running differ at " + d, Ops: lines})
+				if want("C07") {
+					res.Violations = append(res.Violations, common.Violation{Property: "C07", Kind: kind,
+						Detail: "a restarted node and a node that kept running differ at " + d, Ops: lines})
+				}
+				if cfg.Prop == "C01" {
+					res.Violations = append(res.Violations, common.Violation{Property: "C01", Kind: "replica-divergence-restart",
+						Detail: "two replicas fed the same blocks differ because one of them was restarted in between (process lifetime is node-local): " + d, Ops: lines})
+				}
 			}
 			res.Count("monitor:C07.continuous-replica")
 		}
